@@ -387,7 +387,7 @@ ROTS = [  # (starred?, 12 numbers)  exact rotations / offsets
 ]
 MATS = {1: [('13027', 1.0)], 2: [('1001', 2.0), ('8016', 1.0)], 3: [('26056', -0.9), ('6000', -0.1)],
         4: [('92235.70c', 0.05), ('92238.70c', 0.95)]}
-RHOS = ['-1.0', '-2.50', '0.05', '-1.', '1.0e-1', '-7.8']
+RHOS = ['-1.0', '-2.50', '0.05', '-1.', '1.0e-1', '-7.8', '-0.9982071', '-0.9982074', '-0.99820710']   # incl. densities equal to 6 digits only
 
 
 def level0_deck(seed, n_cells=4, n_surfs=5, with_tr=True, with_macro=True, with_bc=True):
@@ -415,12 +415,25 @@ def level0_deck(seed, n_cells=4, n_surfs=5, with_tr=True, with_macro=True, with_
         if src.mn not in ('kz', 'k/x') and not src.bc:
             sid += 1
             d.add_surf(Surf(sid, src.mn, list(src.params), src.tr, rng.choice(['*', '+'])))
+    elif with_bc and rng.random() < 0.25:
+        # the other way round: an unflagged card with a larger number, declared BEFORE the flagged surface it
+        # duplicates (de-duplication keeps the smaller number whatever the order of the cards)
+        cands = [x for x in d.surfs.values() if x.mn not in ('kz', 'k/x')]
+        src = rng.choice(cands)
+        if not src.bc:
+            src.bc = rng.choice(['*', '+'])
+        sid += 1
+        dup = Surf(sid, src.mn, list(src.params), src.tr, '')
+        d.surfs = dict([(sid, dup)] + list(d.surfs.items()))
     macro = []
     if with_macro and rng.random() < 0.5:
         sid += 2
         if rng.random() < 0.5:
             d.add_surf(Surf(sid, 'rpp', [-0.75, 0.5, -1.0, 0.25, -0.5, 0.5]))
             macro.append((sid, 6))
+            if with_bc and rng.random() < 0.3:
+                # a flagged plane that coincides with a facet of the macrobody, declared after it
+                d.add_surf(Surf(sid - 1, 'py', [0.25], None, rng.choice(['*', '+'])))
         else:
             d.add_surf(Surf(sid, 'rcc', [0.0, -0.5, 0.0, 0.0, 1.5, 0.0, 0.75]))
             macro.append((sid, 3))
@@ -573,20 +586,28 @@ def fill_deck(seed):
             if c.fill is not None and rng.random() < 0.6:
                 # BUT FILL=m without a transformation: the fill transformation of cell n must NOT be inherited
                 lk.fill, lk.filltr = c.fill, None
-                opts.append(f'FILL={c.fill}')
+                if rng.random() < 0.5:
+                    opts.append(f'FILL={c.fill}')
+                else:
+                    # ... or with its own transformation, in any spelling (a starred keyword may come first)
+                    lk.filltr = rng.choice(INLINE_TRS)
+                    opts.append(_tr_opt('FILL', c.fill, lk.filltr))
             elif c.mat and rng.random() < 0.5:
                 m2 = rng.choice([1, 2, 4])
                 r2 = rng.choice(['-2.70', '-1.0', '0.05', '-2.70-1'])
                 lk.mat_eff, lk.rho_eff = m2, r2
                 d.materials[m2] = MATS[m2]
                 opts += [f'MAT={m2}', f'RHO={r2}']
+            rng.shuffle(opts)
             lk.like = (c.id, ' '.join(opts))
             d.add_cell(lk)
         fillers = (rng.choice([src_u, new_u]),) if rng.random() < 0.3 else (new_u,)
     top = _partition(d, rng, 0, 1, rng.choice([2, 3, 4]), ids, [1, 2, 0], 1, fillers)
     # importances: level-0 only matter
     for c in d.cells.values():
-        c.imp = 1
+        # whether a point is converted is decided by the level-0 cell alone (C12): the importances written on the
+        # cells of the filling universes are arbitrary and must not matter
+        c.imp = 1 if c.universe == 0 else rng.choice([1, 1, 0, 2])
     if rng.random() < 0.4:
         d.cells[rng.choice(top)].imp = 0
     # re-order: MCNP allows any order; put level 0 first
